@@ -1,4 +1,104 @@
-#![allow(unused)]
+//! C03: every accepted packet reads back completely and faithfully via the iterators.
 use crate::util::*;
-pub fn replay(_a: &[&str]) -> Result<(), String> { Err("not implemented".into()) }
-pub fn gen(_r: &mut Rng) -> Vec<String> { vec![] }
+use crate::wire::{self, Rec};
+use dnssector::*;
+use std::net::IpAddr;
+
+fn check_item<T: DNSIterable + TypedIterable + RdataIterable>(it: &T, r: &Rec, p: &[u8], sec: Section) -> Result<(), String> {
+    if it.offset() != Some(r.off) { return Err(format!("cursor at {:?}, record is at {}", it.offset(), r.off)); }
+    if it.name() != wire::to_text(&r.name) { return Err(format!("name() = {:?} at {}", String::from_utf8_lossy(&it.name()), r.off)); }
+    let mut raw = vec![0xAA];
+    let n = it.copy_raw_name(&mut raw);
+    if raw[0] != 0xAA || raw[1..] != r.name[..] || n != r.name.len() { return Err(format!("copy_raw_name at {}", r.off)); }
+    if it.rr_type() != r.rtype { return Err("rr_type".into()); }
+    if it.rr_class() != r.class { return Err("rr_class".into()); }
+    if it.rr_ttl() != r.ttl { return Err("rr_ttl".into()); }
+    if it.rr_rdlen() != r.rdlen { return Err("rr_rdlen".into()); }
+    if it.current_section().map_err(|e| e.to_string())? != sec { return Err(format!("current_section at {}", r.off)); }
+    let rd = &p[r.name_end + 10..r.end];
+    match it.rr_rd().map_err(|e| e.to_string())? {
+        RawRRData::IpAddr(IpAddr::V4(a)) => { if r.rtype != 1 || a.octets()[..] != rd[..] { return Err("rr_rd v4".into()); } }
+        RawRRData::IpAddr(IpAddr::V6(a)) => { if r.rtype != 28 || a.octets()[..] != rd[..] { return Err("rr_rd v6".into()); } }
+        RawRRData::Data(d) => { if r.rtype == 1 || r.rtype == 28 || d != rd { return Err("rr_rd data".into()); } }
+    }
+    match (it.rr_ip(), r.rtype) {
+        (Ok(IpAddr::V4(a)), 1) => { if a.octets()[..] != rd[..] { return Err("rr_ip v4".into()); } }
+        (Ok(IpAddr::V6(a)), 28) => { if a.octets()[..] != rd[..] { return Err("rr_ip v6".into()); } }
+        (Err(_), t) if t != 1 && t != 28 => {}
+        _ => return Err("rr_ip".into()),
+    }
+    if it.offset_next() != r.end { return Err("offset_next".into()); }
+    Ok(())
+}
+
+/// ops: walk <hex>
+pub fn replay(a: &[&str]) -> Result<(), String> {
+    if a.len() < 2 || a[0] != "walk" { return Err("usage: c03 walk <hex>".into()); }
+    let p = unhex(a[1])?;
+    let m = match wire::parse_ref(&p) { Some(m) => m, None => return Ok(()) };   // C03 quantifies over accepted packets
+    let mut pp = match DNSSector::new(p.clone()).map_err(|e| e.to_string())?.parse() { Ok(pp) => pp, Err(_) => return Ok(()) };
+    // question
+    {
+        let mut n = 0;
+        let mut it = pp.into_iter_question();
+        while let Some(item) = it {
+            if item.offset() != Some(12) { return Err("question offset".into()); }
+            if item.name() != wire::to_text(&m.qname) { return Err("question name()".into()); }
+            let mut raw = vec![];
+            item.copy_raw_name(&mut raw);
+            if raw != m.qname { return Err("question copy_raw_name".into()); }
+            if item.rr_type() != m.qtype || item.rr_class() != m.qclass { return Err("question type/class".into()); }
+            if item.current_section().map_err(|e| e.to_string())? != Section::Question { return Err("question current_section".into()); }
+            n += 1;
+            it = item.next();
+        }
+        if n != 1 { return Err(format!("question section yielded {} records", n)); }
+    }
+    for (secno, sec) in [(1u8, Section::Answer), (2, Section::NameServers), (3, Section::Additional)] {
+        let want: Vec<&Rec> = m.recs.iter().filter(|r| r.section == secno).collect();
+        // OPT skipped
+        let want_noopt: Vec<&Rec> = want.iter().cloned().filter(|r| r.rtype != 41).collect();
+        let mut k = 0;
+        let mut it = match sec { Section::Answer => pp.into_iter_answer(), Section::NameServers => pp.into_iter_nameservers(), _ => pp.into_iter_additional() };
+        while let Some(item) = it {
+            if k >= want_noopt.len() { return Err(format!("section {} yields more records than present", secno)); }
+            check_item(&item, want_noopt[k], &p, sec)?;
+            k += 1;
+            it = item.next();
+        }
+        if k != want_noopt.len() { return Err(format!("section {} (OPT skipped): visited {} of {}", secno, k, want_noopt.len())); }
+        // OPT included
+        if secno == 3 {
+            let mut k = 0;
+            let mut it = pp.into_iter_additional_including_opt();
+            while let Some(item) = it {
+                if k >= want.len() { return Err("additional (including OPT) yields more records than present".into()); }
+                check_item(&item, want[k], &p, sec)?;
+                k += 1;
+                it = item.next_including_opt();
+            }
+            if k != want.len() { return Err(format!("additional (including OPT): visited {} of {}", k, want.len())); }
+        }
+    }
+    // EDNS options
+    {
+        let mut k = 0;
+        let mut it = pp.into_iter_edns();
+        while let Some(item) = it {
+            if k >= m.options.len() { return Err("edns yields more options than present".into()); }
+            if item.offset() != Some(m.options[k].0) { return Err("edns option offset".into()); }
+            if item.offset_next() != m.options[k].0 + 4 + m.options[k].2 { return Err("edns option end".into()); }
+            k += 1;
+            it = item.next();
+        }
+        if k != m.options.len() { return Err(format!("edns: visited {} of {}", k, m.options.len())); }
+    }
+    if pp.packet.as_deref() != Some(&p[..]) { return Err("readers altered the bytes".into()); }
+    Ok(())
+}
+
+pub fn gen(r: &mut Rng) -> Vec<String> {
+    let c = r.chance(3, 4);
+    let p = if r.chance(1, 30) { wire::gen_boundary(r) } else { wire::gen_valid(r, c) };
+    vec!["c03".into(), "walk".into(), hex(&p)]
+}
